@@ -88,7 +88,7 @@ RunRecord run_driver(const sim::Json& sc) {
   g_script = sc["script"].is_obj() ? sc["script"] : sim::Json::object();
   g_dual_mode = (int)g_script["dual_mode"].as_int(0);
   g_cb_calls = 0;
-  g_session = 0;
+  g_session = 0; g_session_regs = 0;
 
   normalise_signal_statics();
 
